@@ -76,8 +76,9 @@ def gen_names(rng, n, style=None, safe_prefix=False):
 
 # --- contents --------------------------------------------------------------------------------
 def size_classes(block):
+    # ... and the sizes at which the header's variable-length NUMBER encoding changes its length (2^7, 2^14)
     return [0, 1, 2, 15, 16, 17, 31, 32, 33, 47, 48, 63, 64, 100, 255, 256, 1000, block - 1, block, block + 1, 2 * block - 1,
-            2 * block, 2 * block + 1, 3 * block + 7]
+            2 * block, 2 * block + 1, 3 * block + 7, 127, 128, 129, 16383, 16384, 16385]
 
 
 def gen_content(rng, block=32768, maxlen=65536, minlen=0):
